@@ -200,6 +200,15 @@ def run(c, a):
                 got = rnd.sample(got, cap)
                 exhaustive[-1] += " (%d sampled)" % cap
             loops += [{"n": n, "cmds": x, "loop": True} for x in got]
+        # the REAL establishingConnProvider (establisher.go) under a real provider + manager, dialing a listener of the
+        # harness; the gate sits inside the dial, so Cancel lands while a dial is in flight that then succeeds (all behaviours)
+        nest = 0
+        for cfg, n in (("est_n1.cfg", 1), ("est_n2.cfg", 2)):
+            got = collect(cfg, n, workers=2)
+            exhaustive.append("%s: %d behaviours" % (cfg[:-4], len(got)))
+            scheds += [{"n": n, "cmds": x, "est": True} for x in got]
+            nest += len(got)
+        c.coverage["establisher_probe_schedules"] = nest
         scheds = scheds + loops
         for i, s in enumerate(scheds):
             s["id"] = "s%d" % i
